@@ -45,4 +45,16 @@ META = {
                            'ExplicitArgumentArrayShapeTransformation', 'RemoveDuplicateArgs'],
                 bounds=dict(COMMON_BOUNDS, outside='TypeboundProcedureCallTransformation (type-bound calls are not interpreted), arrays of derived types'),
                 assumptions=COMMON_ASSUME),
+    'C37': dict(rule=RULE + '. Families: driver + kernel(s) call trees (vertical recurrence, 2-D/1-D temporaries, vector-section notation, '
+                'conditionals in the horizontal loop, mixed loop order, nested kernel) x SCC pipelines {V-vector, S-vector, V-hoist, S-hoist, '
+                'no-directive} applied with scheduler items exactly as the repository tests do; entry = driver; pragmas are comments.',
+                functions=['SCCVVectorPipeline', 'SCCSVectorPipeline', 'SCCVHoistPipeline', 'SCCSHoistPipeline', 'SCCBase/Devector/Demote/Revector/Annotate/Hoist transformations'],
+                bounds=dict(COMMON_BOUNDS, sizes='nlon 2-3, nz 2-3, nb 1-2', outside='CUF / low-level pipelines, anything needing an accelerator compiler'),
+                assumptions=COMMON_ASSUME),
+    'C38': dict(rule=RULE + '. Families: the C37 call trees that have temporaries x {V-hoist, S-hoist, stack direct-index (V/S), stack Fortran-pointer, raw stack}; '
+                'entry = driver; "enough storage on every path" = no out-of-bounds trap on the stack/hoisted arrays for any input.',
+                functions=['SCCHoistTemporaryArraysTransformation', 'HoistTemporaryArraysAnalysis', 'DirectIdxStackTransformation', 'FtrPtrStackTransformation',
+                           'TemporariesRawStackTransformation'],
+                bounds=dict(COMMON_BOUNDS, sizes='nlon 2-3, nz 2-3, nb 1-2', outside='Cray-pointer / C_F_POINTER / LOC based allocators (reported per run as not encoded), pool allocator'),
+                assumptions=COMMON_ASSUME),
 }
